@@ -122,7 +122,7 @@ func startNetNode(reg *memReg, sp nodeSpec) (gen.Node, uint16, error) {
 }
 
 func waitGone(nd gen.Node, peer gen.Atom) {
-	for i := 0; i < 200; i++ {
+	for i := 0; i < 1000; i++ {
 		if _, err := nd.Network().Node(peer); err != nil {
 			return
 		}
@@ -220,7 +220,7 @@ func runC15Nodes(c *Ctx) {
 		if connected {
 			// both ends must list each other
 			okY := false
-			for i := 0; i < 100 && !okY; i++ {
+			for i := 0; i < 1000 && !okY; i++ {
 				for _, nn := range p.y.Network().Nodes() {
 					if nn == p.x.Name() {
 						okY = true
